@@ -192,3 +192,30 @@ CONTRACTS['LogicalFile._check_completeness'] = dict(
     self_fields={'defining_origin': 'oneof[none,obj:DefOriginT]', 'file_header_item': FHI, 'channels': 'oneof[list[int]*0,list[int]*1]',
                  'frames': 'oneof[list[int]*0,list[int]*1]'}, params={}, returns='none',
     raises={'RuntimeError': 'self.defining_origin is None or len(self.channels) == 0 or len(self.frames) == 0'}, ensures=[])
+
+# ---------------------------------------------------------------------------------------------- no-format data order (C16)
+CONTRACTS['LogicalFile.add_no_format_frame_data'] = dict(
+    props=['C16', 'C09'], self_fields={'_no_format_frame_data': 'seqlist[ref]'},
+    params={'no_format_object': {'cls': 'NoFormatItem', 'fields': {'name': 'str'}}, 'data': 'oneof[bytes,str]'},
+    returns={'cls': 'NoFormatFrameData', 'fields': {}},
+    ensures=[('records-keep-the-order-in-which-they-were-added', 'self._no_format_frame_data == old(self._no_format_frame_data) + [result]'),
+             ('payload-and-object-kept-as-given', 'result.data == data and result.no_format_object is no_format_object')])
+
+# ---------------------------------------------------------------------------------------------- generate_logical_records (C18, C12, C09)
+LFG = lambda: {'cls': 'LogicalFile', 'fields': {'defining_origin': 'oneof[none,opq:item]', '_no_format_frame_data': 'list[opq:nfdata]*1',
+                                               '_eflr_sets': {'cls': 'EFLRSetsDict', 'fields': {'frames_value': {'list': [{'cls': 'FrameItem', 'fields': {'name': 'str'}}]}}}}}
+SPEC_UFS['mfd_of'] = (('opq', 'opq'), 'opq')
+CONTRACTS['DLISFile.generate_logical_records'] = dict(
+    props=['C18', 'C12', 'C09'],
+    self_fields={'logical_files': {'list': [LFG(), LFG()]}, '_eflr_sets': {'cls': 'EFLRSetsDict', 'fields': {'__store__': 'clsdict{}'}}},
+    params={'chunk_size': 'int?', 'data': 'none', 'kwargs': {}}, returns={'cls': 'SizedGenerator', 'fields': {}},
+    stubs={'get_all_items_for_set_type': dict(returns_expr_on_receiver='frames_value'),
+           '_make_multi_frame_data': dict(returns_uf='mfd_of', returns_tag='mfd', raises=True),
+           'generator': dict(returns='opq:gen', capture=True), '__len__': dict(returns='int')},
+    raises={'RuntimeError': 'self.logical_files[0].defining_origin is None or self.logical_files[1].defining_origin is None'},
+    may_raise=['StubException'],
+    ensures=[('each-logical-file-builds-the-frame-data-of-its-own-frames-in-creation-order',
+              "stub_call_generator['multi_frame_data_objects'] == [[mfd_of(self.logical_files[0], self.logical_files[0]._eflr_sets.frames_value[0])], "
+              "[mfd_of(self.logical_files[1], self.logical_files[1]._eflr_sets.frames_value[0])]]")])
+OPQ_MODELS['gen'] = {'__isinstance__': {}, '__truthy__': True}
+OPQ_MODELS['item'] = {'__isinstance__': {}, '__truthy__': True}
